@@ -562,7 +562,7 @@ def r_chase(ctx, rep):
                     inits[lid] = x["init"]
         k = 0
         for lp in walk_k(fn.body, "Loop"):
-            if lp.get("src") != "while":
+            if lp.get("src") not in ("while", "loop", None):
                 continue
             # desugared: loop { if cond { body } else { break } }
             blk = lp["body"]
@@ -570,6 +570,19 @@ def r_chase(ctx, rep):
             if not isinstance(top, dict) or top.get("k") != "If":
                 continue
             cond, body = top["cond"], top["then"]
+            if lp.get("src") != "while":
+                # the same walk spelt `loop { if <end reached> { break } .. }`: the rest of the body is the `else` side (the
+                # early exit was nested at load) or the statements that follow
+                tb = [x for x in walk(top["then"]) if isinstance(x, dict) and x.get("k") in ("Break", "Ret", "Continue")]
+                if not (tb and all(x.get("k") == "Break" for x in tb) and not any(x.get("k") in ("Assign", "MethodCall", "Call") for x in walk(top["then"]) if isinstance(x, dict))):
+                    continue
+                rest = [st_ for st_ in blk.get("stmts", [])[1:]] if blk.get("stmts") and unwrap(blk["stmts"][0].get("e") or {}) is top else []
+                if top.get("els") is not None:
+                    body = top["els"]
+                elif rest or blk.get("expr") is not None:
+                    body = {"k": "BlockExpr", "span": lp.get("span"), "block": {"k": "Block", "span": lp.get("span"), "stmts": rest, "expr": blk.get("expr") if unwrap(blk.get("expr") or {}) is not top else None}}
+                else:
+                    continue
             cvars = {p["res"]["lid"]: p["res"]["local"] for p in walk_k(cond, "Path") if "local" in p.get("res", {})}
             cond_calls = any(m.get("k") in ("MethodCall", "Call") for m in walk(cond))
             if not cvars:
